@@ -55,6 +55,22 @@ def wf (K n : Nat) : Op := ⟨.writeForward, K, n, 0⟩
 def df (K n : Nat) : Op := ⟨.discardForward, K, n, 0⟩
 end Op
 
+/-- `Operation.cost()` (basic_functions.py:160-214) with `params = revolver_parameters(wd, rd, uf, ub)`;
+for the hierarchical operations `wd = [0, wd]`, `rd = [0, rd]`: level 0 (RAM) costs nothing -/
+def opCost (c : Costs) (o : Op) : Nat :=
+  match o.kind with
+  | .forward => (o.b - o.a) * c.uf
+  | .backward => c.ub
+  | .readDisk => c.rd
+  | .writeDisk => c.wd
+  | .read => if o.lvl = 0 then 0 else c.rd
+  | .write => if o.lvl = 0 then 0 else c.wd
+  | .writeForward => if o.lvl = 0 then 0 else c.wd
+  | _ => 0
+
+/-- `Sequence.makespan`: the library's own running total of `Operation.cost()` -/
+def makespan (c : Costs) (ops : List Op) : Nat := (ops.map (opCost c)).sum
+
 /-- `Operation.shift(size)`: both ends of a `Forward`/`Backward`, the step of everything else -/
 def shiftOp (size : Nat) (o : Op) : Op :=
   match o.kind with
